@@ -170,6 +170,32 @@ class _Chain(dict):
         return self[k] if k in self else d
 
 
+def _safe_builtin(fn):
+    """a built-in function that only computes on numbers / sequences (operator.sub held in a table, math.ceil ..)"""
+    return getattr(fn, "__module__", None) in ("_operator", "operator", "math") or any(fn is v for v in FUNCS.values())
+
+
+_NODE_HOME = {}          # id(function definition) -> (program, module name), for every program the loader has built
+_MODULE_VALUES = {}      # (id(program), module, name) -> folded value of a module-level assignment
+
+
+def register_program(prog):
+    for m in prog.modules.values():
+        for n in ast.walk(m.tree):
+            if isinstance(n, (ast.FunctionDef, ast.AsyncFunctionDef)):
+                _NODE_HOME[id(n)] = (prog, m.name)
+
+
+def _import_base(m, node):
+    pkg_of = m.name if m.path.endswith("__init__.py") else m.name.rpartition(".")[0]
+    base = node.module or ""
+    if node.level:
+        parts = pkg_of.split(".")
+        parts = parts[:len(parts) - (node.level - 1)]
+        base = ".".join(parts + ([node.module] if node.module else []))
+    return base
+
+
 class Folder:
     """evaluates expressions / runs statement lists over ints, bools, None, lists and tuples; calls of `sinks` (method names on any
     receiver, e.g. add_clause) are recorded with a copy of their positional arguments instead of being executed"""
@@ -185,9 +211,68 @@ class Folder:
         self.globals = {}                        # names visible in every folded function (module-level bindings supplied by the rule)
         self.module_functions = {}               # name -> ast.FunctionDef of module-level functions that may be folded when called         # CapitalisedName(..) of an unknown class gives an Opaque object
         self.fuel = fuel
+        self.home = []                           # (program, module) of the functions being folded, innermost last
+
+    def _module_name(self, name, home=None, depth=0):
+        """a name that nothing else binds, looked up in the module the folded function was defined in: a module-level function, a function
+        imported from another module of the package, or a module-level assignment (folded once); KeyError if it is none of these"""
+        home = home or (self.home[-1] if self.home else None)
+        if home is None or depth > 4:
+            raise KeyError(name)
+        prog, mname = home
+        m = prog.modules.get(mname)
+        if m is None:
+            raise KeyError(name)
+        value = None
+        for node in m.tree.body:
+            if isinstance(node, (ast.FunctionDef, ast.AsyncFunctionDef)) and node.name == name:
+                value = ("def", node)
+            elif isinstance(node, ast.Assign) and len(node.targets) == 1 and isinstance(node.targets[0], ast.Name) and node.targets[0].id == name:
+                value = ("assign", node.value)
+            elif isinstance(node, ast.ImportFrom):
+                for a in node.names:
+                    if (a.asname or a.name) == name:
+                        value = ("import", _import_base(m, node), a.name)
+        if value is None:
+            raise KeyError(name)
+        if value[0] == "def":
+            d = value[1]
+            return lambda *a, **k: self.call_function(d, list(a), k)
+        if value[0] == "import":
+            if value[1] not in prog.modules:
+                dotted = "%s.%s" % (value[1], value[2])
+                if dotted in FUNCS:
+                    return FUNCS[dotted]
+                if value[1] in ("operator", "math") and hasattr(__import__(value[1]), value[2]):
+                    return getattr(__import__(value[1]), value[2])          # pure functions of numbers
+                if value[2] in FUNCS and value[1] in ("itertools", "functools", "bisect", "collections"):
+                    return FUNCS[value[2]]
+                raise KeyError(name)
+            return self._module_name(value[2], (prog, value[1]), depth + 1)
+        key = (id(prog), mname, name)
+        if key not in _MODULE_VALUES:
+            saved_env, saved_h = self.env, self.helpers
+            self.env, self.helpers = {}, {}
+            self.home.append(home)
+            try:
+                _MODULE_VALUES[key] = self.ev(value[1])
+            finally:
+                self.home.pop()
+                self.env, self.helpers = saved_env, saved_h
+        return _MODULE_VALUES[key]
 
     def call_function(self, d, args, kw):
         """fold a call of the function definition ``d`` (positional / keyword arguments, defaults); its locals do not leak"""
+        home = _NODE_HOME.get(id(d))
+        if home is None:
+            return self._call_function(d, args, kw)
+        self.home.append(home)
+        try:
+            return self._call_function(d, args, kw)
+        finally:
+            self.home.pop()
+
+    def _call_function(self, d, args, kw):
         params = [a.arg for a in d.args.posonlyargs + d.args.args]
         defaults = dict(zip(params[len(params) - len(d.args.defaults):], d.args.defaults))
         saved = self.env
@@ -289,6 +374,10 @@ class Folder:
                 return Opaque(e.id)
             if e.id in ("int", "float", "list", "tuple", "dict", "set", "bool", "str", "type"):
                 return {"int": int, "float": float, "list": list, "tuple": tuple, "dict": dict, "set": set, "bool": bool, "str": str, "type": type}[e.id]
+            try:
+                return self._module_name(e.id)
+            except KeyError:
+                pass
             raise Unknown("free name %s" % e.id)
         if isinstance(e, ast.UnaryOp):
             v = self.ev(e.operand)
@@ -482,7 +571,7 @@ class Folder:
             return self.call_function(self.methods[c.func.attr], [self.env.get("self")] + args, kw)
         if isinstance(c.func, ast.Name) and c.func.id in self.module_functions and c.func.id not in self.env:
             return self.call_function(self.module_functions[c.func.id], args, kw)
-        if isinstance(c.func, ast.Name) and c.func.id in self.helpers and \
+        if isinstance(c.func, ast.Name) and c.func.id in self.helpers and c.func.id not in self.env and \
                 _is_generator(self.helpers[c.func.id]):
             d = self.helpers[c.func.id]
             outer = dict(self.env)
@@ -496,7 +585,7 @@ class Folder:
                 (kw or self.helpers[c.func.id].args.vararg or self.helpers[c.func.id].args.kwarg or self.helpers[c.func.id].args.defaults or
                  self.helpers[c.func.id].args.kwonlyargs or len(args) != len(self.helpers[c.func.id].args.args)):
             return self._closure(self.helpers[c.func.id])(*args, **kw)
-        if isinstance(c.func, ast.Name) and c.func.id in self.helpers:
+        if isinstance(c.func, ast.Name) and c.func.id in self.helpers and c.func.id not in self.env:
             d = self.helpers[c.func.id]
             saved = dict(self.env)
             for p, a in zip([x.arg for x in d.args.args], args):
@@ -518,7 +607,7 @@ class Folder:
             return ret
         if isinstance(c.func, ast.Name) and (c.func.id in self.env or c.func.id in self.globals):
             target = self.env.get(c.func.id, self.globals.get(c.func.id))
-            if callable(target) and not isinstance(target, type(len)):
+            if callable(target) and (not isinstance(target, type(len)) or _safe_builtin(target)):
                 try:
                     return target(*args, **kw)                     # a stand-in supplied by the rule
                 except PYEXC as x:
@@ -601,6 +690,13 @@ class Folder:
                     return getattr(recv, m)(*args, **kw)
                 except PYEXC as x:
                     raise Raised(type(x).__name__)
+        if isinstance(c.func, ast.Name) and c.func.id not in self.env:
+            try:
+                target = self._module_name(c.func.id)
+            except KeyError:
+                target = None
+            if callable(target):
+                return target(*args, **kw)
         raise Unknown("call %s" % fn)
 
     # ------------------------------------------------------------------ statements
